@@ -11,6 +11,10 @@ tier = 'quick'
 if '--tier' in args:
     i = args.index('--tier'); tier = args[i + 1]; del args[i:i + 2]
 patch, props = args[0], args[1:]
+if os.path.isdir(patch):      # a seeded/<id> directory: the form of the patch that fits HEAD (see reseed.py)
+    cand = [os.path.join(patch, n) for n in ('patch.head.diff', 'patch.diff')]
+    patch = next((c for c in cand if os.path.exists(c) and subprocess.run(['git', '-C', '/repo', 'apply', '--check', c],
+                                                                          capture_output=True).returncode == 0), cand[-1])
 st = subprocess.run(['git', '-C', '/repo', 'status', '--porcelain', '--', 'segno'], capture_output=True, text=True).stdout
 if st.strip():
     print('repo not clean:', st); sys.exit(3)
